@@ -50,6 +50,7 @@ FORMS = {
 CONTAINS_FORMS = {
     norm("{ union.variants.contains(potential_member) }"): "by-equality",
     norm("{ match potential_member { UnionVariant::Scalar(_) => union.variants.contains(potential_member), UnionVariant::Plural(supplied) => union.variants.iter().any(|variant| match variant { UnionVariant::Scalar(_) => false, UnionVariant::Plural(target) => variable_type_satisfies_argument_type(supplied.item.reference(), target.item.reference()) }) } }"): "plural-by-compatibility",
+    norm("{ match potential_member { UnionVariant::Scalar(_) => union.variants.contains(potential_member), UnionVariant::Plural(supplied) => union.variants.iter().any(|variant| match variant { UnionVariant::Scalar(_) => false, UnionVariant::Plural(target) => variable_type_satisfies_argument_type(target.item.reference(), supplied.item.reference()) }) } }"): "plural-by-compatibility-swapped",
 }
 MATCH_SCALAR_FORM = norm("{ match union_variant_var { UnionVariant::Scalar(union_var_entity_name_wrapper) => { union_var_entity_name_wrapper.dereference() == scalar_arg } UnionVariant::Plural(_) => false } }")
 
@@ -194,6 +195,8 @@ def model_fn(X, sup, tgt):
     def contains(union, member):
         if X["contains"] == "by-equality" or member[0] == "VS":
             return z3.Or(*[eq_variant(v, member) for v in union[2]]) if union[2] else z3.BoolVal(False)
+        if X["contains"] == "plural-by-compatibility-swapped":
+            return z3.Or(*[model_fn(X, v[1], member[1]) if v[0] == "VP" else z3.BoolVal(False) for v in union[2]])
         return z3.Or(*[model_fn(X, member[1], v[1]) if v[0] == "VP" else z3.BoolVal(False) for v in union[2]])
 
     def need_kinds(t_kind, s_kind):
